@@ -25,8 +25,16 @@ def plan(tier):
 
 
 def check(pid, tier, seed):
-    return p_kani.check(pid, tier, seed, SPECS, plan(tier), FUNCS, {"slots": 3, "unwind": 5}, ASSUME, RULE, slots=2, timeout=2400)
+    run = p_kani.check(pid, tier, seed, SPECS, plan(tier), FUNCS, {"slots": 3, "unwind": 5}, ASSUME, RULE, slots=2, timeout=2400)
+    import p_visit_ob
+    p_visit_ob.obligations(run, ["MarkAndSweepContext", "MarkAndSweepContextRefQueue"])
+    return run
 
 
 def replay(pid, path):
+    import json
+    payload = json.load(open(path))
+    if payload.get("kind") == "trace":
+        import p_visit_ob
+        return p_visit_ob.replay(pid, payload, path)
     return p_kani.replay(pid, path)
